@@ -312,21 +312,10 @@ def out_unit(op):
 
 
 def execute(plan):
-    """Half of the runs execute in a forked child of a process in which dreye was imported but
-    never called, so that module-level state warmed up by earlier runs of the same worker
-    (caches keyed too coarsely, memoised factors) cannot hide what a fresh process would show;
-    the other half run in the long-lived worker, where such state accumulates across runs."""
-    if plan.get("fresh_process") and not os.environ.get("_C20_IN_CHILD"):
-        from sim import pristine
-        return pristine.client().call("checks.c20", "execute_in_child", plan)
+    """Every run already starts from the library's import-time state (the runner forks a child
+    per run, see sim.runner.isolated): module-level state warmed up by earlier runs cannot hide
+    what a fresh process would show, and a violation replays from its plan alone."""
     return execute_here(plan)
-
-
-def execute_in_child(plan):
-    os.environ["_C20_IN_CHILD"] = "1"
-    res = execute_here(plan)
-    res["counters"]["reach:fresh_process_runs"] = 1
-    return res
 
 
 def execute_here(plan):
